@@ -93,6 +93,35 @@ Section HistoryOk.
     - apply add_edges_WF. exact W.
   Qed.
 
+  Lemma add_nodes_sp ns : forall (g g' : gstate), WF g -> add_nodes teqb g ns = Ok g' -> sp g' = sp g.
+  Proof.
+    induction ns as [|n ns IH]; intros g g' W H; unfold add_nodes in *; simpl in H.
+    - inversion H. reflexivity.
+    - destruct (add_node_refines teqb tltb teqb_spec g n W) as (g1 & H1 & W1 & Ha1).
+      rewrite H1 in H. simpl in H. rewrite (IH g1 g' W1 H).
+      assert (a_sp (Abs g1) = a_sp (spec_add_node teqb (Abs g) n)) by (rewrite Ha1; reflexivity).
+      unfold spec_add_node in H0. destruct (a_has teqb (Abs g) (nname n)); exact H0.
+  Qed.
+
+  Lemma add_edges_sp es : forall (g : gstate), WF g -> sp (fst (add_edges g es)) = sp g.
+  Proof.
+    induction es as [|e es IH]; intros g W; simpl; [reflexivity|].
+    destruct (aer g e W) as (W1 & _ & Hs & _).
+    destruct (add_edge g e) as [g1 r] eqn:E. simpl in W1, Hs.
+    destruct r; simpl; try exact Hs. rewrite (IH g1 W1). exact Hs.
+  Qed.
+
+  Lemma apply_mut_sp (g : gstate) (m : mutation T A) : WF g -> sp (fst (apply_mut teqb tltb g m)) = sp g.
+  Proof.
+    intros W. destruct m as [n|ns|e|es]; simpl.
+    - destruct (add_node_refines teqb tltb teqb_spec g n W) as (g' & H & W' & Ha). rewrite H. simpl.
+      assert (a_sp (Abs g') = a_sp (spec_add_node teqb (Abs g) n)) by (rewrite Ha; reflexivity).
+      unfold spec_add_node in H0. destruct (a_has teqb (Abs g) (nname n)); exact H0.
+    - destruct (add_nodes_WF ns g W) as (g' & H & W' & _). rewrite H. simpl. apply (add_nodes_sp ns g g' W H).
+    - apply (aer g e W).
+    - apply add_edges_sp. exact W.
+  Qed.
+
   Theorem WF_reachable s (g : gstate) : reachable teqb tltb s g -> WF g.
   Proof.
     intros (ms & ->). unfold run_muts.
@@ -101,6 +130,16 @@ Section HistoryOk.
     { induction ms0 as [|m ms0 IH]; intros g0 W0; simpl; [exact W0|].
       apply IH. apply apply_mut_WF. exact W0. }
     apply H. apply WF_new.
+  Qed.
+
+  Theorem reachable_sp s (g : gstate) : reachable teqb tltb s g -> sp g = s.
+  Proof.
+    intros (ms & ->). unfold run_muts.
+    assert (H : forall ms (g0 : gstate), WF g0 ->
+              sp (fold_left (fun g m => fst (apply_mut teqb tltb g m)) ms g0) = sp g0).
+    { induction ms0 as [|m ms0 IH]; intros g0 W0; simpl; [reflexivity|].
+      rewrite IH by (apply apply_mut_WF; exact W0). apply apply_mut_sp. exact W0. }
+    rewrite H by apply WF_new. reflexivity.
   Qed.
 
   (* new_from_nodes_and_edges is a history from the empty graph *)
